@@ -357,6 +357,26 @@ class Folder:
                     if not isinstance(t, (bool, int, str, type(None), tuple, list)) or isinstance(t, TT):
                         raise NotConst('helper branches on a non-constant')
                     block(s_.body if t else s_.orelse)
+                elif isinstance(s_, ast.For) and not s_.orelse and isinstance(s_.target, (ast.Name, ast.Tuple)):
+                    it = s_.iter
+                    if isinstance(it, ast.Call) and isinstance(it.func, ast.Name) and it.func.id == 'range' and not it.keywords and 'range' not in e2:
+                        ra = [self.eval(a_, mod, e2, cls) for a_ in it.args]
+                        if not ra or not all(type(x) is int for x in ra):
+                            raise NotConst('range operand')
+                        seq = list(range(*ra))
+                    else:
+                        seq = self.eval(it, mod, e2, cls)
+                    if not isinstance(seq, (tuple, list, str)) or len(seq) > 256:
+                        raise NotConst('helper loops over a non-constant')
+                    for item in seq:
+                        if isinstance(s_.target, ast.Name):
+                            e2[s_.target.id] = item
+                        else:
+                            if not isinstance(item, (tuple, list)) or len(item) != len(s_.target.elts) or not all(isinstance(x, ast.Name) for x in s_.target.elts):
+                                raise NotConst('helper loop target')
+                            for x, v in zip(s_.target.elts, item):
+                                e2[x.id] = v
+                        block(s_.body)
                 else:
                     raise NotConst(f'helper statement {type(s_).__name__}')
         try:
